@@ -11,6 +11,7 @@
 -/
 import SgeProofs.Properties.C16
 import SgeProofs.Lemmas.GenesisReachMods
+import SgeProofs.Lemmas.GenesisReachModsStats
 namespace Sge.Genesis
 open Sge
 
@@ -140,5 +141,175 @@ example : ∃ g, exportSub grm_subState = some g ∧ g.accounts.length = 2 ∧
   have e : (exportSub grm_subState).map (·.accounts.length) = some 2 := by decide +kernel
   rw [this] at e
   exact Option.some.inj e
+
+-- =============================================================================================
+-- x/reward
+
+/-- the state the histories of the x/reward model start from: no records, arbitrary balances; `fixed` / `codecFixed`
+    select the patched variants of the *model* (reward_negative_components.diff, reward_register_withdraw_authorization.diff) -/
+def grm_rewardInit (fixed codecFixed : Bool) (bal : Nat → Int) : Sge.Reward.State :=
+  { Sge.Reward.init fixed bal with codecFixed := codecFixed }
+
+/-- C16 reach, reward, every history (both variants of the model, any digests): the seven stores of x/reward
+    (`grm_stores`: the KV stores of the model state in key order, as the harness hands them to the genesis model) satisfy
+    every conjunct of `rewardInv` EXCEPT the by-category conjunct "the by-category index is filed under the promoter of
+    the reward's campaign" (false in a reachable state: `rewardInv_reachable_counterexample`):
+    the six stores are keyed stores and the grant counters are what the patched InitGenesis rebuilds. -/
+theorem rewardInv_partial (d : grm_Digests) (fixed codecFixed : Bool) (bal : Nat → Int) (ops : List Sge.Reward.Op) :
+    let st := grm_stores d (Sge.Reward.run (grm_rewardInit fixed codecFixed bal) ops)
+    sortedB (fun (x : Nat × Nat) => [x.1]) st.promoters = true ∧ sortedB (fun (x : Nat × Nat) => [x.1]) st.byAddress = true ∧
+    sortedB (fun (c : Campaign) => [c.uid]) st.campaigns = true ∧ sortedB (fun (r : Reward) => [r.uid]) st.rewards = true ∧
+    sortedB ByCat.key st.byCategory = true ∧ sortedB (fun (x : Nat × Nat) => [x.1, x.2]) st.byCampaign = true ∧
+    st.grantStats = rebuiltStats st :=
+  grm_rewardInv_partial_of d _ (Sge.Reward.grm_rwI_run ops (Sge.Reward.grm_rwI_init fixed codecFixed bal))
+
+/-- C16 reach, reward: `rewardInv` holds after every history in which no address creates a promoter while it already
+    is the address of a promoter (`grm_freshRun`: every `createPromoter` of the history is sent by an address without a
+    promoter-by-address record at that point). -/
+theorem rewardInv_reachable (d : grm_Digests) (fixed codecFixed : Bool) (bal : Nat → Int) (ops : List Sge.Reward.Op)
+    (hf : Sge.Reward.grm_freshRun (grm_rewardInit fixed codecFixed bal) ops = true) :
+    rewardInv (grm_stores d (Sge.Reward.run (grm_rewardInit fixed codecFixed bal) ops)) = true :=
+  grm_rewardInv_of d _ (Sge.Reward.grm_rwI_run ops (Sge.Reward.grm_rwI_init fixed codecFixed bal))
+    (Sge.Reward.grm_catOK_run ops (by intro y hy; cases hy) hf)
+
+/-- … in particular when the `createPromoter` messages of the history come from pairwise different addresses. -/
+theorem rewardInv_reachable_of_distinct_creators (d : grm_Digests) (fixed codecFixed : Bool) (bal : Nat → Int)
+    (ops : List Sge.Reward.Op) (hn : (Sge.Reward.grm_promoterCreators ops).Nodup) :
+    rewardInv (grm_stores d (Sge.Reward.run (grm_rewardInit fixed codecFixed bal) ops)) = true :=
+  rewardInv_reachable d fixed codecFixed bal ops
+    (Sge.Reward.grm_freshRun_of_nodup ops _ (by intro x hx; cases hx) hn)
+
+/-- C16 reward, patched genesis code, every state reachable without a second promoter of one address: all seven
+    collections come back after export + import. -/
+theorem c16_import_export_reward_reachable (d : grm_Digests) (fixed codecFixed : Bool) (bal : Nat → Int)
+    (ops : List Sge.Reward.Op) (hf : Sge.Reward.grm_freshRun (grm_rewardInit fixed codecFixed bal) ops = true) :
+    let st := grm_stores d (Sge.Reward.run (grm_rewardInit fixed codecFixed bal) ops)
+    importReward true (exportReward true st) = some st :=
+  c16_import_export_reward _ (rewardInv_reachable d fixed codecFixed bal ops hf)
+
+theorem grm_validate_export_reward (gfixed : Bool) (st : RewardStores)
+    (hc : sortedB (fun (c : Campaign) => [c.uid]) st.campaigns = true) (hr : sortedB (fun (r : Reward) => [r.uid]) st.rewards = true)
+    (h3 : hasDup (st.byCategory.map (·.uid)) = false) (h4 : hasDup (st.byCampaign.map (·.2)) = false) :
+    validateReward (exportReward gfixed st) = 0 := by
+  rw [sortedB_iff] at hc hr
+  unfold validateReward exportReward
+  simp only [List.map_map]
+  rw [sorted_noDup _ (·.uid) st.campaigns hc (fun _ => rfl), sorted_noDup _ (·.uid) st.rewards hr (fun _ => rfl)]
+  have : (st.byCategory.map ((fun (x : Nat × Nat × Nat) => x.2.2) ∘ fun x => (x.receiver, x.category, x.uid))) = st.byCategory.map (·.uid) := rfl
+  rw [this, h3, h4]
+  rfl
+
+/-- C16 reward, EVERY reachable state, both variants of the genesis code (`gfixed`) and of the model: the exported
+    genesis validates (campaign and reward uids are unique, both index lists carry every reward uid once). No hypothesis
+    on the history: the validation does not look at the promoter uids. -/
+theorem c16_validate_export_reward_reachable (gfixed : Bool) (d : grm_Digests) (fixed codecFixed : Bool) (bal : Nat → Int)
+    (ops : List Sge.Reward.Op) :
+    validateReward (exportReward gfixed (grm_stores d (Sge.Reward.run (grm_rewardInit fixed codecFixed bal) ops))) = 0 := by
+  have hI := Sge.Reward.grm_rwI_run ops (Sge.Reward.grm_rwI_init fixed codecFixed bal)
+  obtain ⟨_, _, hc, hr, _, _, _⟩ := grm_rewardInv_partial_of d _ hI
+  obtain ⟨h3, h4⟩ := grm_index_uids d _ hI
+  exact grm_validate_export_reward gfixed _ hc hr h3 h4
+
+-- ---------------------------------------------------------------------------------------------
+-- the counter-example: one address creates two promoters
+
+def grm_bal : Nat → Int := fun a => if a < 12 then 5000 else 0
+
+/-- digests used in the concrete examples -/
+def grm_dg : grm_Digests :=
+  { promoter := fun p => 1000 * p.creator + p.conf.length, campaign := fun c => c.pool.avail.toNat, reward := fun r => r.creator }
+
+def grm_grantMsg (uid campaign receiver : Nat) : Sge.Reward.GrantMsg :=
+  { creator := 2, uid := uid, campaign := campaign, tv := true, receiver := receiver, kyc := some (false, true, true),
+    srcOk := true, referee := 0, bet := 0 }
+
+def grm_campaignMsg (uid promoter capCount : Nat) : Sge.Reward.CreateMsg :=
+  { creator := promoter, uid := uid, funds := some 1000, tv := true, promoter := promoter, startTS := 100, endTS := 200,
+    category := 1, rtype := 1, amtType := 1,
+    ra := some { main := some 25, sub := some 100, unlock := 10, mainPct := none, subPct := none },
+    active := true, capCount := capCount, cons := none }
+
+/-- account 1 creates promoter 7, funds a campaign, a reward is granted (filed under promoter 7 in the by-category
+    index); then account 1 creates a second promoter 8: `SetPromoterByAddress` overwrites the record of address 1 -/
+def grm_rewardCexOps : List Sge.Reward.Op :=
+  [ .time 100,
+    .createPromoter { creator := 1, tv := true, uid := 7, uidOk := true, conf := [(1, 2)] },
+    .createCampaign (grm_campaignMsg 20 1 1),
+    .grant (grm_grantMsg 30 20 3),
+    .createPromoter { creator := 1, tv := true, uid := 8, uidOk := true, conf := [] } ]
+
+def grm_rewardCexStores : RewardStores :=
+  grm_stores grm_dg (Sge.Reward.run (grm_rewardInit false false grm_bal) grm_rewardCexOps)
+
+/-- FINDING (x/reward, `CreatePromoter` + genesis): `rewardInv` does NOT hold in every reachable state.  `CreatePromoter`
+    only checks that the promoter *uid* is new; an address that already is a promoter address can create a second
+    promoter, which overwrites its promoter-by-address record (address 1: 7 → 8).  The by-category index entries of the
+    rewards granted so far stay filed under the old promoter uid 7, while the genesis import (also the patched one)
+    re-derives the promoter uid from the reward's campaign's promoter address and files them under 8: the conjunct
+    "by-category index is filed under the promoter of the reward's campaign" is false, and import (export σ) ≠ σ —
+    after a restart the reward counts against the category cap of promoter 8 instead of promoter 7.
+    All other conjuncts hold (`rewardInv_partial`) and the export validates. -/
+theorem rewardInv_reachable_counterexample :
+    Sge.Reward.grm_freshRun (grm_rewardInit false false grm_bal) grm_rewardCexOps = false ∧
+    grm_rewardCexStores.promoters.map (·.1) = [7, 8] ∧ grm_rewardCexStores.byAddress = [(1, 8)] ∧
+    grm_rewardCexStores.byCategory = [{ promoterUid := 7, receiver := 3, category := 1, uid := 30 }] ∧
+    promoterOfReward grm_rewardCexStores 30 = some 8 ∧
+    rewardInv grm_rewardCexStores = false ∧
+    importReward true (exportReward true grm_rewardCexStores) =
+      some { grm_rewardCexStores with byCategory := [{ promoterUid := 8, receiver := 3, category := 1, uid := 30 }] } ∧
+    importReward true (exportReward true grm_rewardCexStores) ≠ some grm_rewardCexStores ∧
+    validateReward (exportReward true grm_rewardCexStores) = 0 := by
+  decide +kernel
+
+/-- the same holds for the other three combinations of the model's patch flags (the defect is not touched by them) -/
+theorem rewardInv_reachable_counterexample_patched :
+    rewardInv (grm_stores grm_dg (Sge.Reward.run (grm_rewardInit true true grm_bal) grm_rewardCexOps)) = false := by
+  decide +kernel
+
+-- ---------------------------------------------------------------------------------------------
+-- non-vacuity
+
+/-- two promoters (addresses 1 and 4), a capped and an uncapped campaign, four grants to two accounts (one refused by
+    the cap), a top-up and a withdrawal -/
+def grm_rewardOps : List Sge.Reward.Op :=
+  [ .time 100,
+    .createPromoter { creator := 4, tv := true, uid := 9, uidOk := true, conf := [] },
+    .createPromoter { creator := 1, tv := true, uid := 7, uidOk := true, conf := [(1, 3)] },
+    .createCampaign (grm_campaignMsg 21 4 0),
+    .createCampaign (grm_campaignMsg 20 1 2),
+    .grant (grm_grantMsg 33 20 3),
+    .time 105,
+    .grant (grm_grantMsg 31 21 3),
+    .time 120,
+    .grant (grm_grantMsg 32 20 3),
+    .grant (grm_grantMsg 30 20 5),
+    .time 140,
+    .grant (grm_grantMsg 34 20 3),
+    .updateCampaign { creator := 1, uid := 20, topup := some 50, tv := true, endTS := 300, active := true },
+    .withdraw { creator := 4, uid := 21, amount := some 40, tv := true, promoter := 4 } ]
+
+def grm_rewardStores : RewardStores :=
+  grm_stores grm_dg (Sge.Reward.run (grm_rewardInit false false grm_bal) grm_rewardOps)
+
+example :
+    Sge.Reward.grm_freshRun (grm_rewardInit false false grm_bal) grm_rewardOps = true ∧
+    (Sge.Reward.grm_promoterCreators grm_rewardOps).Nodup ∧
+    grm_rewardStores.promoters.map (·.1) = [7, 9] ∧ grm_rewardStores.byAddress = [(1, 7), (4, 9)] ∧
+    grm_rewardStores.campaigns.map (fun c => (c.uid, c.promoter, c.capCount)) = [(20, 1, 2), (21, 4, 0)] ∧
+    grm_rewardStores.rewards.map (fun r => (r.uid, r.campaign, r.receiver)) = [(30, 20, 5), (31, 21, 3), (32, 20, 3), (33, 20, 3)] ∧
+    grm_rewardStores.byCategory.map (fun x => (x.promoterUid, x.receiver, x.uid)) = [(7, 3, 32), (7, 3, 33), (7, 5, 30), (9, 3, 31)] ∧
+    grm_rewardStores.grantStats = [(20, 3, 2), (20, 5, 1)] ∧
+    rewardInv grm_rewardStores = true := by
+  decide +kernel
+
+example : rewardInv grm_rewardStores = true :=
+  rewardInv_reachable grm_dg false false grm_bal grm_rewardOps (by decide +kernel)
+
+example : importReward true (exportReward true grm_rewardStores) = some grm_rewardStores :=
+  c16_import_export_reward_reachable grm_dg false false grm_bal grm_rewardOps (by decide +kernel)
+
+example : validateReward (exportReward false grm_rewardStores) = 0 ∧ validateReward (exportReward false grm_rewardCexStores) = 0 :=
+  ⟨c16_validate_export_reward_reachable false grm_dg false false grm_bal grm_rewardOps,
+   c16_validate_export_reward_reachable false grm_dg false false grm_bal grm_rewardCexOps⟩
 
 end Sge.Genesis
